@@ -157,7 +157,7 @@ def execute_desc(check, desc, timeout=None):
     global _CHECK
     _CHECK = check
     timeout = timeout or getattr(check, "RUN_TIMEOUT", 60.0)
-    if getattr(check, "ISOLATE", False):
+    if getattr(check, "ISOLATE", False) or (isinstance(desc, dict) and desc.get("isolate")):
         return run_isolated(_exec_desc, desc, timeout)
     try:
         return json.loads(json.dumps(_exec_desc(desc), default=str))
